@@ -453,6 +453,72 @@ func renameFree(x excellent.Expression, bound []string) {
 	}
 }
 
+func shapeStr(x excellent.Expression) string {
+	s, _, _ := shapeOf(x, nil)
+	return s
+}
+
+type refAt struct{ where, desc string }
+
+// refsOf lists the references of a tree in evaluation order with the position that holds them.
+func refsOf(x excellent.Expression) []refAt {
+	var out []refAt
+	var walk func(x excellent.Expression, where string, bound []string)
+	walk = func(x excellent.Expression, where string, bound []string) {
+		switch t := x.(type) {
+		case *excellent.ContextReference:
+			d := "other:" + strings.ToLower(t.Name)
+			switch strings.ToLower(t.Name) {
+			case "a", "z":
+				d = strings.ToLower(t.Name)
+			}
+			for _, b := range bound {
+				if strings.EqualFold(b, t.Name) {
+					d = "bound-parameter-" + d
+					where = ""
+				}
+			}
+			out = append(out, refAt{where, d})
+			return
+		case *excellent.AnonFunction:
+			bound = append(append([]string{}, bound...), t.Args...)
+		}
+		for _, s := range slots(x) {
+			w := typeName(x) + "." + s.name
+			if typeName(x) == "paren" {
+				w = where // parentheses are transparent
+			}
+			walk(s.get(), w, bound)
+		}
+	}
+	walk(x, "top", nil)
+	return out
+}
+
+// diffRefs names the first difference between the references of the expected and the actual tree.
+func diffRefs(exp, act excellent.Expression) string {
+	re, ra := refsOf(exp), refsOf(act)
+	if len(re) != len(ra) {
+		return "number-of-references-differs"
+	}
+	for i := range re {
+		if re[i].desc != ra[i].desc {
+			strip := func(d string) string {
+				if i := strings.Index(d, "other:"); i >= 0 {
+					return d[:i] + "other"
+				}
+				return d
+			}
+			d := "ref:" + strip(re[i].desc) + "->" + strip(ra[i].desc)
+			if re[i].where != "" && !strings.Contains(d, "bound-parameter") {
+				d = re[i].where + ":" + d
+			}
+			return d
+		}
+	}
+	return ""
+}
+
 func unparseable(t excellent.Expression) bool {
 	p, pn := printTree(t)
 	if pn != "" {
@@ -670,12 +736,22 @@ func checkExpr(e string, stages int) (vs []viol, info exprInfo) {
 					} else if xr, errp, pnp := parse(er); pnp != "" || errp != nil {
 						add("tpl:rename-unparseable:"+shapeFor("tpl:rename-unparseable", stageStruct), "rename a->z of %q gives %q whose expression does not parse: %v %s", T, rr, errp, pnp)
 					} else {
-						if sh, _, _ := shapeOf(xr, nil); sh != expectRenamed {
+						// exactly the references to the context's a are renamed: the references of the result, in
+						// order, are those of the original with the free a's replaced (the rest of the tree may be
+						// re-printed differently as long as it means the same)
+						expected := func() excellent.Expression {
 							xe, _, _ := parse(e)
 							renameFree(xe, nil)
-							add("tpl:rename-changes-wrong-references:"+joinDiff(diffTrees(xe, xr)), "rename a->z of %q gives %q: expected syntax tree %s, got %s", T, rr, expectRenamed, sh)
+							return xe
+						}
+						d := ""
+						if sh := shapeStr(xr); sh != expectRenamed { // identical trees have identical references
+							d = diffRefs(expected(), xr)
+						}
+						if d != "" {
+							add("tpl:rename-changes-wrong-references:"+d, "rename a->z of %q gives %q: expected syntax tree %s, got %s", T, rr, expectRenamed, shapeStr(xr))
 						} else if same, why := sameEverywhere(xr, true); !same {
-							add("tpl:rename-changes-meaning:"+joinDiff(diffTrees(x, xr)), "rename a->z of %q gives %q, which under the context with a's value bound to z differs: %s", T, rr, why)
+							add("tpl:rename-changes-meaning:"+joinDiff(diffTrees(expected(), xr)), "rename a->z of %q gives %q, which under the context with a's value bound to z differs: %s", T, rr, why)
 						}
 					}
 				}
